@@ -607,3 +607,112 @@ func NoPathAvoidingTracked(p *core.Prog, fn *ssa.Function, start ssa.Instruction
 
 // resolveCell looks through a load of a local cell with a single store.
 func resolveCell(v ssa.Value) ssa.Value { return canonObj(v) }
+
+// ---------------------------------------------------------------------------------
+// Argument roles: same-typed parameters that receive each other's value
+// ---------------------------------------------------------------------------------
+
+// ArgRoleSwap is a call site at which an argument's source carries the name of a
+// different parameter of the callee than the one it is passed to.
+type ArgRoleSwap struct {
+	Call   *ssa.Call
+	Callee *ssa.Function
+	Detail string
+}
+
+func normIdent(s string) string {
+	out := make([]rune, 0, len(s))
+	for _, r := range s {
+		if r == '_' {
+			continue
+		}
+		if r >= 'A' && r <= 'Z' {
+			r += 'a' - 'A'
+		}
+		out = append(out, r)
+	}
+	return string(out)
+}
+
+// ArgRoleSwaps inspects the static calls made by fns: when the callee has two parameters
+// of one identical type, an argument that is a plain field load / parameter / call whose
+// name equals (case- and underscore-insensitively) the name of the OTHER parameter while
+// the other parameter receives something else is a swapped pair. Exact names only, so a
+// report is either a real swap or a very misleading name.
+func ArgRoleSwaps(fns []*ssa.Function) (swaps []ArgRoleSwap, nSites int) {
+	srcName := func(v ssa.Value) string {
+		for i := 0; i < 3; i++ {
+			switch x := v.(type) {
+			case *ssa.Convert:
+				v = x.X
+				continue
+			case *ssa.ChangeType:
+				v = x.X
+				continue
+			}
+			break
+		}
+		switch x := v.(type) {
+		case *ssa.Parameter:
+			return normIdent(x.Name())
+		case *ssa.UnOp:
+			if fa, ok := x.X.(*ssa.FieldAddr); ok && x.Op == token.MUL {
+				if f := core.FieldOf(fa); f != nil {
+					return normIdent(f.Name())
+				}
+			}
+			if al, ok := x.X.(*ssa.Alloc); ok && x.Op == token.MUL {
+				return normIdent(al.Comment)
+			}
+		case *ssa.Field:
+			if f := core.FieldOf(x); f != nil {
+				return normIdent(f.Name())
+			}
+		case *ssa.Call:
+			if x.Call.IsInvoke() {
+				return normIdent(x.Call.Method.Name())
+			}
+			if cal := x.Call.StaticCallee(); cal != nil {
+				return normIdent(cal.Name())
+			}
+		}
+		return ""
+	}
+	for _, fn := range fns {
+		for _, b := range fn.Blocks {
+			for _, in := range b.Instrs {
+				c, ok := in.(*ssa.Call)
+				if !ok {
+					continue
+				}
+				cal := c.Call.StaticCallee()
+				if cal == nil || cal.Blocks == nil || len(cal.Params) != len(c.Call.Args) {
+					continue
+				}
+				counted := false
+				for i := range cal.Params {
+					for j := i + 1; j < len(cal.Params); j++ {
+						pi, pj := cal.Params[i], cal.Params[j]
+						if !types.Identical(pi.Type(), pj.Type()) {
+							continue
+						}
+						if !counted {
+							nSites++
+							counted = true
+						}
+						ni, nj := normIdent(pi.Name()), normIdent(pj.Name())
+						if ni == nj || ni == "" || nj == "" {
+							continue
+						}
+						ai, aj := srcName(c.Call.Args[i]), srcName(c.Call.Args[j])
+						// arg i carries parameter j's name (and not its own), or vice versa
+						if (ai == nj && ai != ni && aj != nj) || (aj == ni && aj != nj && ai != ni) {
+							swaps = append(swaps, ArgRoleSwap{c, cal, "argument named like parameter `" + map[bool]string{true: pj.Name(), false: pi.Name()}[ai == nj] + "` is passed as `" + map[bool]string{true: pi.Name(), false: pj.Name()}[ai == nj] + "`"})
+						}
+					}
+				}
+			}
+		}
+	}
+	return
+}
